@@ -3534,6 +3534,10 @@ func (l *Lowerer) evalLiteral(lit *parser.Literal) (ir.ScalarKind, uint64, error
 			isUnsigned = true
 		} else if len(text) > 0 && text[len(text)-1] == 'i' {
 			text = text[:len(text)-1]
+		} else {
+			// No suffix: an abstract integer, whose range is that of i64. Parsed with 32 bits,
+			// strconv saturates (0xffffffff became 2147483647 before it reached its u32 or f32 context).
+			is64bit = true
 		}
 		if isUnsigned {
 			bitSize := 32
